@@ -2,11 +2,15 @@
   FspecAllRepl5 — C05 for `replace`, pair reading, part 5: the last step.  On the forest
   `(replMid …).mergeNewAt q new` (child list `mergeNew new (lX ++ t :: rX)` at the parent, `PutSite`):
 
-  * xot's last consolidation `remove_consolidate(previous, next_sibling(previous))` is the pair merge
-    of the two former neighbours of the replaced node (`final_after`, `final_first`): the model is
-    `specReplaceK`;
-  * that pair merge after `mergeNew` is `mergeNew3` unless the left neighbour has been merged away
-    and the replacing text node now stands between two text nodes (`mergeK_eq_mergeP`).
+  * xot's last consolidation `remove_consolidate(previous_sibling(next), next)` (609b613) completes
+    `mergeNew` to `mergeNew3` in every geometry (`prevStep_noop`, `prevStep_merge` here; `final_next`,
+    `final_last` in `FspecAllRepl6.lean`): the model is `specReplaceP`;
+  * the pair merge of the two FORMER neighbours of the replaced node,
+    `remove_consolidate(previous, next_sibling(previous))` (`final_after`, `final_first`; what xot did
+    before 609b613), after `mergeNew` is `mergeNew3` too unless the left neighbour has been merged
+    away and the replacing text node now stands between two text nodes (`mergeK_eq_mergeP`) — used
+    for the forests without adjacent text nodes (`FspecRepl4.lean`), where the lemmas are stated in
+    that form.
 -/
 import XotModel.Lemmas.FspecAllRepl4
 import XotModel.Lemmas.FspecAllUnwrap
@@ -164,6 +168,64 @@ theorem final_core {f2 : Forest} {q : Nat} {vq : Value} {l1 : List HTree} {K : H
   · subst er
     rw [h3, hnr b r' rfl (by rw [hx]; rfl) (by rw [hy]; rfl)]
     exact (step_merge s2 hc2 (mergeAdj_mid_text hx hy r' t1)).symm
+
+theorem textOf_none_of_kid {g : Forest} {p : Nat} {v : Value} {X : List HTree} {K : HTree} {Y : List HTree}
+    (s : SiteAt g p v (X ++ K :: Y)) (h : K.value.isText = false) : g.textOf K.handle = none := by
+  rw [Forest.textOf_of_get s.getKid]
+  cases hd : textData K with
+  | none => rfl
+  | some z => rw [isText_iff_textData.2 ⟨z, hd⟩] at h; cases h
+
+/-- xot's `remove_consolidate(previous_sibling(N), N)` (the last step of `replace` since 609b613)
+    when `N` and the child `K` before it are not both text nodes: nothing happens. -/
+theorem prevStep_noop {g : Forest} {p : Nat} {v : Value} {X : List HTree} {K N : HTree} {Y : List HTree}
+    (s : SiteAt g p v ((X ++ [K]) ++ N :: Y)) (h : ¬ (K.value.isText = true ∧ N.value.isText = true)) :
+    (g.removeConsolidate (g.prevSibling N.handle) (some N.handle)).1 = g := by
+  rw [Forest.prevSibling_of_ctx s.ctx]
+  simp only [prevOf, List.getLast?_concat]
+  split
+  · have sK : SiteAt g p v (X ++ K :: (N :: Y)) := by
+      have : X ++ K :: (N :: Y) = (X ++ [K]) ++ N :: Y := by simp
+      rw [this]; exact s
+    cases hK : K.value.isText with
+    | false => rw [Forest.removeConsolidate_not_text_left (textOf_none_of_kid sK hK)]
+    | true =>
+      have hN : N.value.isText = false := by
+        cases hN : N.value.isText with
+        | false => rfl
+        | true => exact absurd ⟨hK, hN⟩ h
+      rw [Forest.removeConsolidate_not_text_right (textOf_none_of_kid s hN)]
+  · rw [Forest.removeConsolidate_none_left]
+
+/-- … and when both are text nodes: `N` is merged into `K`. -/
+theorem prevStep_merge {g : Forest} {p : Nat} {v : Value} {X : List HTree} {K N : HTree} {Y : List HTree}
+    (s : SiteAt g p v ((X ++ [K]) ++ N :: Y)) (hc : g.consolidation = true) {x y : Str}
+    (hK : K.value = .text x) (hN : N.value = .text y)
+    (hleaf : ∀ k ∈ N :: Y, k.value.isText = true → k.kids = []) :
+    (g.removeConsolidate (g.prevSibling N.handle) (some N.handle)).1 =
+      g.editAt (some p) (fun _ => X ++ K.setValue (.text (x ++ y)) :: Y) := by
+  have hKn : K.value.isNormal = true := PairAfter.text_normal (by rw [hK]; rfl)
+  have hNn : N.value.isNormal = true := PairAfter.text_normal (by rw [hN]; rfl)
+  have sK : SiteAt g p v (X ++ K :: (N :: Y)) := by
+    have : X ++ K :: (N :: Y) = (X ++ [K]) ++ N :: Y := by simp
+    rw [this]; exact s
+  have hprev : g.prevSibling N.handle = some K.handle := by
+    rw [Forest.prevSibling_of_ctx s.ctx]
+    simp [prevOf, PairAfter.normal_cat hKn, PairAfter.normal_cat hNn]
+  have hnext : g.nextSibling K.handle = some N.handle := by
+    rw [Forest.nextSibling_of_ctx sK.ctx]
+    exact PairAfter.nextOf_cons_normal hKn hNn
+  rw [hprev, ← hnext]
+  rcases lastStep sK hc hleaf with ⟨_, h4⟩ | ⟨b', r', x', y', er, hx, hy, h3⟩
+  · exact absurd ⟨by rw [hK]; rfl, by rw [hN]; rfl⟩ (h4 N rfl)
+  · injection er with e1 e2
+    subst e1 e2
+    rw [hK] at hx
+    rw [hN] at hy
+    injection hx with hx
+    injection hy with hy
+    subst hx hy
+    exact h3
 
 end PairAll
 
